@@ -8,6 +8,7 @@ import (
 	"fmt"
 	"os"
 	"strconv"
+	"strings"
 	"sync"
 	"syscall"
 	"time"
@@ -55,6 +56,9 @@ type Dev struct {
 	writes  []WriteRec
 	reads   int
 	t0      time.Time
+	// file != "": the device lives in plain files that /bin/sh scripts of a cmd fan read and write
+	// (<file> value, <file>.log write attempts, <file>.reads read count, <file>.wmode / .rmode fault modes)
+	file string
 }
 
 func NewDev(name string, val int) *Dev { return &Dev{Name: name, val: val, t0: time.Now()} }
@@ -62,17 +66,102 @@ func NewDev(name string, val int) *Dev { return &Dev{Name: name, val: val, t0: t
 // SetT0 sets the origin of the timestamps in the write log (call inside the bubble).
 func (d *Dev) SetT0(t time.Time) { d.mu.Lock(); d.t0 = t; d.mu.Unlock() }
 
-func (d *Dev) Get() int { d.mu.Lock(); defer d.mu.Unlock(); return d.val }
+// NewFileDev creates a device kept in plain files for script based (cmd) fans.
+func NewFileDev(path string, val int) *Dev {
+	d := &Dev{Name: path, file: path, t0: time.Now()}
+	d.Set(val)
+	for _, suffix := range []string{".log", ".reads"} {
+		_ = os.WriteFile(path+suffix, nil, 0644)
+	}
+	d.SetWriteMode(WriteOK)
+	d.SetReadMode(ReadOK)
+	return d
+}
+
+func fileInt(p string) int {
+	b, err := os.ReadFile(p)
+	if err != nil {
+		return -1
+	}
+	v, err := strconv.Atoi(strings.TrimSpace(string(b)))
+	if err != nil {
+		return -1
+	}
+	return v
+}
+
+func fileLines(p string) []string {
+	b, _ := os.ReadFile(p)
+	return strings.Fields(string(b))
+}
+
+func (d *Dev) Get() int {
+	if d.file != "" {
+		return fileInt(d.file)
+	}
+	d.mu.Lock()
+	defer d.mu.Unlock()
+	return d.val
+}
 
 // Set changes the stored value directly (third party / physics), bypassing the write log.
-func (d *Dev) Set(v int)          { d.mu.Lock(); d.val = v; d.mu.Unlock() }
-func (d *Dev) SetWriteMode(m int) { d.mu.Lock(); d.WriteMode = m; d.mu.Unlock() }
-func (d *Dev) SetReadMode(m int)  { d.mu.Lock(); d.ReadMode = m; d.mu.Unlock() }
-func (d *Dev) Reads() int         { d.mu.Lock(); defer d.mu.Unlock(); return d.reads }
-func (d *Dev) NumWrites() int     { d.mu.Lock(); defer d.mu.Unlock(); return len(d.writes) }
+func (d *Dev) Set(v int) {
+	if d.file != "" {
+		_ = os.WriteFile(d.file, []byte(strconv.Itoa(v)+"\n"), 0644)
+		return
+	}
+	d.mu.Lock()
+	d.val = v
+	d.mu.Unlock()
+}
+func (d *Dev) SetWriteMode(m int) {
+	if d.file != "" {
+		_ = os.WriteFile(d.file+".wmode", []byte(strconv.Itoa(m)), 0644)
+	}
+	d.mu.Lock()
+	d.WriteMode = m
+	d.mu.Unlock()
+}
+func (d *Dev) SetReadMode(m int) {
+	if d.file != "" {
+		_ = os.WriteFile(d.file+".rmode", []byte(strconv.Itoa(m)), 0644)
+	}
+	d.mu.Lock()
+	d.ReadMode = m
+	d.mu.Unlock()
+}
+func (d *Dev) Reads() int {
+	if d.file != "" {
+		return len(fileLines(d.file + ".reads"))
+	}
+	d.mu.Lock()
+	defer d.mu.Unlock()
+	return d.reads
+}
+func (d *Dev) NumWrites() int {
+	if d.file != "" {
+		return len(fileLines(d.file + ".log"))
+	}
+	d.mu.Lock()
+	defer d.mu.Unlock()
+	return len(d.writes)
+}
 
 // Writes returns a copy of the write log starting at index from.
 func (d *Dev) Writes(from int) []WriteRec {
+	if d.file != "" {
+		// the scripts log "<value>:<stored afterwards>"; there are no timestamps (T stays 0)
+		var out []WriteRec
+		for i, l := range fileLines(d.file + ".log") {
+			if i < from {
+				continue
+			}
+			var v, st int
+			_, _ = fmt.Sscanf(l, "%d:%d", &v, &st)
+			out = append(out, WriteRec{V: v, Stored: st})
+		}
+		return out
+	}
 	d.mu.Lock()
 	defer d.mu.Unlock()
 	if from > len(d.writes) {
